@@ -19,6 +19,7 @@ macro_rules! dispatch {
             "C07" => fw::$f::<props::c07::C07>($($arg),*),
             "C08" => fw::$f::<props::c08::C08>($($arg),*),
             "C09" => fw::$f::<props::c09::C09>($($arg),*),
+            "C10" => fw::$f::<props::c10::C10>($($arg),*),
             "C11" => fw::$f::<props::c11::C11>($($arg),*),
             "C12" => fw::$f::<props::c12::C12>($($arg),*),
             "C13" => fw::$f::<props::c13::C13>($($arg),*),
